@@ -45,6 +45,11 @@ if [ -e "$src/` + badMarker + `" ]; then
   exit 1
 fi
 mkdir -p "$code" || exit 1
+if [ -n "$C19_COMPILE_KILLS_SCRIPT" ]; then
+  # The script is killed while the compiler runs; the compiler goes on.
+  kill -9 $PPID
+  sleep "$C19_COMPILE_KILLS_SCRIPT"
+fi
 echo "config of r1" > "$code/r1"
 echo "pass1 data" > "$code/r1.config"
 echo "pass1 data" > "$code/r1.rules"
@@ -334,14 +339,14 @@ type proc struct {
 
 // start launches newpolicy.sh (or the wrapper bin/newpolicy). k > 0: traced
 // and killed at the k-th simple command; k == 0 with trace: traced only.
-func (w *world) start(wrapper, conc, trace bool, k int, before string) (*proc, error) {
+func (w *world) start(wrapper, conc, trace bool, k int, before string, more ...string) (*proc, error) {
 	w.nrun++
 	id := fmt.Sprintf("r%d", w.nrun)
 	prog := filepath.Join(w.repoBin, "newpolicy.sh")
 	if wrapper {
 		prog = filepath.Join(w.repoBin, "newpolicy")
 	}
-	extra := []string{"C19_RUN=" + id}
+	extra := append([]string{"C19_RUN=" + id}, more...)
 	p := &proc{id: id, outFile: filepath.Join(w.dir, "out-"+id+".txt")}
 	if trace || k > 0 || before != "" {
 		p.trFile = filepath.Join(w.trace, id)
@@ -373,7 +378,10 @@ func (w *world) start(wrapper, conc, trace bool, k int, before string) (*proc, e
 	return p, nil
 }
 
-func (w *world) wait(p *proc) (runResult, error) {
+func (w *world) wait(p *proc) (runResult, error) { return w.waitQ(p, true) }
+
+// waitQ: with quiesce == false the orphans of a killed run are left alone.
+func (w *world) waitQ(p *proc, quiesce bool) (runResult, error) {
 	defer p.cancel()
 	done := make(chan error, 1)
 	go func() { done <- p.cmd.Wait() }()
@@ -403,8 +411,10 @@ func (w *world) wait(p *proc) (runResult, error) {
 	// substitution) may still hold the lock for a moment. 'Undisturbed'
 	// means none of them is left: wait until the process group is empty
 	// and the lock is free.
-	if err := w.quiesce(p.cmd.Process.Pid); err != nil {
-		return r, err
+	if quiesce {
+		if err := w.quiesce(p.cmd.Process.Pid); err != nil {
+			return r, err
+		}
 	}
 	data, _ := os.ReadFile(p.outFile)
 	r.out = string(data)
